@@ -5,6 +5,21 @@ VERIF = os.path.dirname(os.path.dirname(os.path.abspath(__file__)))
 ALL = ['C%02d' % i for i in range(1, 21)]
 
 CHECKS = {
+ 'C01': dict(
+   technique="property-based testing (Hypothesis @given): generated solver configurations driven step-wise; oracle = the harness's own record of every cost call plus an unrecorded twin of the cost, penalty and constraint",
+   text="Generated-configuration search over DE, DE2, Nelder-Mead, Powell (class API, observed after every Step) and the seven one-call wrappers: whenever bestEnergy is finite, bestSolution must be bit-equal to a vector the recording cost function was called with, bestEnergy must equal reducer(recorded value) + penalty(bestSolution) (exact for scalar costs), every population/simplex member's stored energy must equal the harness-computed objective (inf outside the box, cost+penalty of the constrained point otherwise), and the best never exceeds the initial guess's energy; wrappers' (x, fval, iter, funcalls) must agree with the recorder. Exploration only.",
+   note="Trusted: recording cost/constraint/penalty catalog objects (harness), mystic.penalty formulas (C15), numpy. Domain: deterministic idempotent box-compatible constraints (constructed and re-checked), no NaN costs, range modes except the randomising clip=False. Open known finding F8 (sum-type reducer + penalty).",
+   design="DESIGN.md section 5, C01"),
+ 'C02': dict(
+   technique="stateful property-based testing (Hypothesis RuleBasedStateMachine) + @given for initial points; oracle = closed-interval test of every recorded cost call against the box in force at the time",
+   text="Generated histories interleave SetStrictRanges (degenerate, None, +-inf sides; all nine tight x clip combinations; changed/removed mid-run) with Step, pusher and catalog constraints and penalties for all four solvers; every call the recording cost function receives must lie in the box then in force, invalid mode combinations must raise the documented ValueError, the reported best must be inside the box when ranges were in force from the start and the energy is finite, and SetRandomInitialPoints / wrappers given (min,max) pairs must start inside their limits. Exploration only.",
+   note="Trusted: the recorder; None sides = solver default +-1e3. Open known findings F17 (all-degenerate box + tight=True crashes), F18 (infinite side installed mid-run -> NaN coordinates evaluated), F19 (Nelder-Mead best vertex pushed without re-evaluation).",
+   design="DESIGN.md section 5, C02"),
+ 'C03': dict(
+   technique="property-based testing (Hypothesis @given): generated constrained configurations; oracle = the catalog's independent exact predicate sat(x) applied to every recorded cost call and to the reported solution",
+   text="Generated-configuration search with a deterministic, idempotent, box-compatible constraint always installed (pin, clamp, grid, affine tie, sort, symbolic-generated; pure and in-place; list/array returning), from the start or after k steps, all range modes except clip=False, stops by tiny limits: every recorded evaluation made while the constraint is installed must satisfy it exactly, and (constraint from the start, finite energy) the reported solution must satisfy it with bestEnergy equal to the objective at that constrained point and solution_history ending in it. Exploration only.",
+   note="Trusted: catalog predicates (they set values, no solving); the recorder. Result checks are skipped (and counted) when the best energy is not finite. Open known finding F8 shared with C01.",
+   design="DESIGN.md section 5, C03"),
  'C04': dict(
    technique="stateful property-based testing (Hypothesis RuleBasedStateMachine): generated Step/Solve/Set*/Finalize histories checked after every operation against the harness's own recorder of cost calls and callbacks",
    text="Generated-history search over DE, DE2, Nelder-Mead and Powell: after every operation the evaluation counter must equal the number of calls the recording cost function received, the evaluation monitor must hold exactly those (x, cost) pairs in order, generations must equal completed iterations (callback count - 1), the energy history must be non-increasing within a segment of unchanged objective and end in bestEnergy, a stopped run's step monitor must have generations+1 records ending in the reported result, and each Step triggers at most one callback whose argument is the current best. Exploration: thousands of histories per run, shrunk traces replayable without Hypothesis.",
